@@ -773,9 +773,14 @@ def jacobian(r: R, chk, quals: List[str], rule="JACOBIAN"):
         loops = []
         for lp in ast.walk(fi.node):
             if isinstance(lp, ast.For) and isinstance(lp.target, ast.Tuple) and len(lp.target.elts) == 2 and all(isinstance(e, ast.Name) for e in lp.target.elts) and isinstance(lp.iter, ast.Call) and seg(lp.iter.func) == "zip" and len(lp.iter.args) == 2 and all(isinstance(x, ast.Subscript) and isinstance(x.slice, ast.Slice) for x in lp.iter.args):
-                loops.append(lp)
-        for lp in loops:
-            a_, b_ = (e.id for e in lp.target.elts)
+                loops.append((lp, tuple(e.id for e in lp.target.elts)))
+            elif isinstance(lp, ast.For):
+                # `for piece in curve.split(): a, b = piece.knotvector.limits`
+                for st in lp.body:
+                    if isinstance(st, ast.Assign) and isinstance(st.targets[0], ast.Tuple) and len(st.targets[0].elts) == 2 and all(isinstance(e, ast.Name) for e in st.targets[0].elts) and seg(st.value).endswith(".limits"):
+                        loops.append((lp, tuple(e.id for e in st.targets[0].elts)))
+                        break
+        for lp, (a_, b_) in loops:
             defs: Dict[str, List[ast.expr]] = {}
             for s in ast.walk(lp):
                 if isinstance(s, ast.Assign) and len(s.targets) == 1 and isinstance(s.targets[0], ast.Name):
@@ -1021,3 +1026,64 @@ def ends_candidate(r: R, chk, piece_fn: str, curve_fn: str, rule="ENDS-CANDIDATE
     chk.ob(rule, f"{piece_fn}: both ends of the piece are candidates on every path", ok, loc=r.loc(ctx, fi.node),
            detail="" if ok else f"{piece_fn}: the candidate set starts empty and receives `{lim[0] if lim else 'umin'}` / `{lim[1] if lim else 'umax'}` only when a Newton iterate happens to leave the interval; when every start converges to an interior stationary point (a maximum of the distance included) the ends are never compared, although the minimum over a closed interval can be at an end: parabola y = x**2 on [-1, 1] and P = (0, 10) returns u = 1/2 (distance 10, the maximum) instead of u = 0, 1 (distance 9.06)",
            func=piece_fn, construct="interval ends not among the candidates")
+
+
+# ------------------------------------------------------------------------------------------------
+# PROBE-OPERAND: "number or sequence?" is asked of the operand alone, not of the outcome of the real operation
+def probe_operand(r: R, chk, quals: List[str], rule="PROBE-OPERAND"):
+    """`try: <operation on self with other> except TypeError: <other operation>` decides the kind of `other` by whether
+    arithmetic between the knots and `other` raises TypeError.  numpy scalars do not raise for `np.float64 + [x]` (they
+    broadcast), so with numpy-float64 knots the first operation proceeds with garbage and fails with another exception.
+    Obligation: the try body of every TypeError probe in `quals` calls no method of the receiver."""
+    n = 0
+    for q in quals:
+        ctx = r.root(q)
+        fi = ctx.fi
+        for t in [x for x in ast.walk(fi.node) if isinstance(x, ast.Try)]:
+            from ..cfg import handler_types
+
+            if not any("TypeError" in handler_types(h) for h in t.handlers):
+                continue
+            n += 1
+            inner = {id(x) for s_ in t.body for x in ast.walk(s_)}
+            bad = []
+            for cr in ctx.calls:
+                if id(cr.node) in inner and cr.callees and cr.recv is not None and any(root_of(o) == 0 for o in cr.recv.pts) and not any(f.kind == "getter" for f in cr.callees):
+                    bad.append(cr)
+            ok = not bad
+            chk.ob(rule, f"{q}: the TypeError probe at line {t.lineno} asks the operand, not the outcome of an operation on the receiver", ok, loc=r.loc(ctx, t),
+                   detail="" if ok else f"{q}: `{seg(bad[0].node, 40)}` inside `try … except TypeError` is the real operation used as a type test: whether `other` is a number or a sequence is decided by `knot + other` raising TypeError, which numpy scalars do not do (np.float64(0.25) + [0.5] broadcasts) — with numpy-float64 knots a legal insertion / elevation ends in `ValueError: Invalid knot vector`; probe `float(other)` / `iter(other)` first",
+                   func=q, construct="operation on the receiver used as a type probe")
+    chk.note(f"{rule}: {n} TypeError probe(s) examined in {', '.join(quals)}")
+
+
+# ------------------------------------------------------------------------------------------------
+# PIECEWISE-EVAL: a span-by-span quadrature that offers a closed rule evaluates each span's own piece
+def piecewise_eval(r: R, chk, quals: List[str], rule="PIECEWISE-EVAL"):
+    """`curve.eval` is right-continuous: at the right end of a span it returns the value of the NEXT span.  A function whose
+    method registry contains a node family with the span ends (closed Newton-Cotes) therefore may not evaluate the whole curve
+    inside its span loop; it has to evaluate the piece of that span (a loop-local curve obtained from split()), whose own right
+    end is the left limit."""
+    from .c10 import CLOSED_NODES, funcrefs
+
+    n = 0
+    for q in quals:
+        ctx = r.root(q)
+        fi = ctx.fi
+        offers_closed = any(f in CLOSED_NODES for d in ast.walk(fi.node) if isinstance(d, ast.Dict) for v in d.values for f in funcrefs(ctx, v))
+        if not offers_closed:
+            continue
+        for lp in [x for x in ast.walk(fi.node) if isinstance(x, ast.For)]:
+            inner = {id(x) for st in lp.body for x in ast.walk(st)}
+            local = {x.id for x in ast.walk(lp.target) if isinstance(x, ast.Name)}
+            for cr in ctx.calls:
+                if id(cr.node) not in inner or not any(f.qual in ("curves.Curve.eval", "curves.BaseCurve.__call__") for f in cr.callees):
+                    continue
+                node = cr.node
+                recv = node.func.value if isinstance(node, ast.Call) and isinstance(node.func, ast.Attribute) else (node.func if isinstance(node, ast.Call) else None)
+                n += 1
+                ok = isinstance(recv, ast.Name) and recv.id in local
+                chk.ob(rule, f"{q}: `{seg(node, 40)}` inside the span loop evaluates the loop's own piece", ok, loc=r.loc(ctx, node),
+                       detail="" if ok else f"{q}: `{seg(node, 40)}` evaluates the whole curve inside the span loop although the method registry offers closed Newton-Cotes nodes: the node at the right end of a span reads the next span, so with method='closed-newton-cotes' the integral of a degree-0 curve / of a curve with an interior knot of multiplicity p+1 / the length of a polyline is wrong (step [0,1] on [0,1,2]: 3/2 instead of 1)",
+                       func=q, construct="whole curve evaluated at span ends")
+    chk.floor(rule, "curve evaluations inside span loops", n, len(quals))
